@@ -44,18 +44,21 @@ META = {
                  "arithmetic), with the token forest constrained by the SHAPE invariant of grammar.pest (children of a node = a word of the regular "
                  "language of its rule, decided by a verified derivative matcher); model tied to the code by differential runs of the extracted model "
                  "on the REAL token forests of mutated/truncated/garbage grammars; defects found by the harness and refuted in Coq on witnesses",
-    "text": "Theorems (coq/props/C09.v, closed under the global context): C09_total_located / C09_no_panic / C09_locations - for the code WITH "
-            "fixes/C09-1..4, every text and every token forest of the shape grammar.pest prescribes, every fuel, any repetition counts: the front end "
-            "never panics, docs::consume does not panic, every reported error is a position / ordered span on char boundaries of the text and renders "
-            "(C10's theorem); C09_no_panic_bounded_counts - the same with the unroller as shipped when all counts are <= 2^32-3; "
-            "C09_terminates_partial - reader and validator terminate (fuel = nesting depth / number of rules suffices; optimizer passes not covered); "
-            "C09_shape_is_regular - shape_ok is the regular-language statement. The full statement C09_statement is REFUTED for the code as shipped "
-            "(C09_refuted, C09_refuted_witnesses: six panicking witnesses in four classes, replayed on the real code every run) and, for the bounded-time "
-            "clause, for every configuration (validator_steps_exponential: >= 2^n steps on a quadratic-size family; C09_steps_refuted). Every run: "
-            "real parse_and_optimize (child process, catch_unwind, wall clock) on the shipped grammars, their token-level mutants, prefixes, byte damage, "
+    "text": "Theorems (coq/props/C09.v, closed under the global context), for every text and every token forest of the shape grammar.pest "
+            "prescribes, every fuel, any repetition counts: C09_total_located / C09_no_panic - the code WITH the C09 repairs (fixes/C09-1, -2, -4 and the "
+            "leading-`|` repair now in the tree) never panics, docs::consume does not panic; C09_locations - in ANY configuration (as shipped, repaired, "
+            "in between) every reported error is a position / ordered span on char boundaries of the text and renders (C10's theorem); "
+            "C09_no_panic_bounded_counts - the same no-panic result with the unroller as shipped when all counts are <= 2^32-3; C09_terminates_partial - "
+            "reader, validator and the optimizer passes rotate / factor terminate (fuel = nesting depth / number of rules / body size suffices; the "
+            "skipper's termination rests on C06 and is not covered); C09_shape_is_regular - shape_ok is the regular-language statement. The full "
+            "statement C09_statement is REFUTED for the code without the repairs (C09_refuted, C09_refuted_witnesses: panicking witnesses in four "
+            "classes, evaluated in Coq on the real token forests and replayed on the real code every run) and, for the bounded-time clause, for every "
+            "configuration (validator_steps_exponential: >= 2^n steps on a quadratic-size family; C09_steps_refuted). Every run: real "
+            "parse_and_optimize (child process, catch_unwind, wall clock) on the shipped grammars, their token-level mutants, prefixes, byte damage, "
             "numeric / PEEK / escape edge cases, unterminated and unbalanced constructs, non-ASCII, NUL, long and deeply nested texts, random garbage and "
-            "damaged generated grammars; oracle: outcome class, every error location valid, all renderings; extracted model vs implementation on class, "
-            "error multiset (kind, location) and docs::consume; extracted shape_ok on every real forest.",
+            "damaged generated grammars, with and without grammar-extras; oracle: outcome class, every error location valid, all renderings; extracted "
+            "model vs implementation on class, error multiset (kind, location) and docs::consume; extracted shape_ok on every real forest. The model "
+            "follows the tree: the harness probes which repairs (C09's and those of C06 / C07 that touch modelled functions) are present.",
     "note": "Trusted: Coq kernel; extraction (ExtrOcamlBasic only); harness/runner; the meta-parser itself is outside the model (its output forest is the "
             "model's input: shape checked dynamically, provable from C01/C14/C04); str/char/Vec/HashMap/number-parsing semantics by documented meaning; "
             "restore_on_err (no panic site) not modelled; native stack depth and memory are outside the model (measured: a few thousand nested "
